@@ -186,6 +186,16 @@ def suite_ma(ctx, case):
             for _ in m.iterpairs(): pass
             (d.MatrixArray_to_real if case['sp'] == 'F' else d.MatrixArray_to_fourier)(m)
             m.data = keepdata; m.space = SP[case['sp']]
+        if case.get('failed_first') and case['sp'] != 'N' and L >= 2:
+            # a transform that FAILS (a Domain whose length does not match the array) and is caught: the array and its flag are what they were
+            dbad = pyPRISM.Domain(length=L + 1, dr=0.1); keep = m.data.copy()
+            try:
+                (dbad.MatrixArray_to_fourier if case['sp'] == 'R' else dbad.MatrixArray_to_real)(m); failed = False
+            except Exception:
+                failed = True
+            ctx.pred('ma', case, failed and SPT[m.space] == case['sp'] and bool(np.array_equal(m.data, keep)),
+                     'a transform with a Domain of another length %s; afterwards the array is flagged %s (was %s)' % ('raised' if failed else 'was accepted', SPT[m.space], case['sp']), key='C07:ma-space-guard')
+            m.space = SP[case['sp']]
         before = m.data.copy(); sp0 = case['sp']
         seq = []
         for step, way in enumerate(dirn):
@@ -293,7 +303,7 @@ def generate(ctx):
         case['dirs'] = [rng.choice(['F', 'R', 'FR', 'RF', 'FF', 'RR', 'FRF', 'RFR'])]
         case['layout'] = rng.choice(['C', 'C', 'F', 'T', 'sub'])
         case['zero'] = rng.random() < 0.15
-        case['mkind'] = rng.choice(['plain', 'plain', 'identity']); case['fill'] = rng.choice(['assign', 'inplace']); case['reassign'] = rng.random() < 0.3
+        case['mkind'] = rng.choice(['plain', 'plain', 'identity']); case['fill'] = rng.choice(['assign', 'inplace']); case['reassign'] = rng.random() < 0.3; case['failed_first'] = rng.random() < 0.3
         # type labels: default letters, a permutation of them, or other names (several arrays of one rank with different labels in one process)
         case['types'] = rng.choice([None, None, rng.sample(['A', 'B', 'C', 'D'][:case['rank']], case['rank']), ['poly', 'B', 'solvent', 'D4'][:case['rank']],
                                     [1, 0, 3, 2][:case['rank']] if case['rank'] != 3 else [2, 0, 1], [10, 20, 30, 40][:case['rank']], [1, 2, 3, 4][:case['rank']]])      # integer labels that are not their positions
